@@ -79,7 +79,17 @@ class ConfigNodeMeta(NamespaceableMeta):
                             del kwargs[arg_name]
                             continue
                         setattr(value, '_' + arg_name, kwargs[arg_name])
-                if any(k.startswith('implicit_') for k in kwargs.keys()):
+                # explicit flags and user metadata given to an already-built node (e.g., a merge-control tag written in
+                # front of a scalar which yaml itself resolves to a node, like an implicit f-string) are not to be lost either
+                if kwargs.get('delete') is not None:
+                    value._delete = kwargs['delete']
+                if kwargs.get('allow_new') is not None:
+                    value._allow_new = kwargs['allow_new']
+                if kwargs.get('safe') is not None:
+                    value._safe = notnone_or(value._safe, True) and kwargs['safe']
+                if kwargs.get('metadata'):
+                    value._metadata = { **value._metadata, **kwargs['metadata'] }
+                if any(k.startswith('implicit_') or k in ('delete', 'allow_new', 'safe') for k in kwargs.keys()):
                     value._propagate_implicit_values()
                 if kwargs.get('priority') is not None:
                     value._propagate_priority()
